@@ -149,7 +149,7 @@ package align
 
 
 //@ func (*pwaligner).Alignment
-//@   props C09
+//@   props C09 C01
 //@   float xreal
 //@   requires pwok(a) && sepseqs(a) && nogapkey(a)
 //@   ensures pwok(a) && sepseqs(a) && nogapkey(a)
